@@ -78,6 +78,7 @@ class Driver:
         ids = set()
         while len(ids) < n_ids:
             ids.add(r.choice([r.randint(0, 40), r.randint(-2000, -1), r.randint(10**6, 2 * 10**9)]))
+        ids.add(0)                              # identifier 0 is legitimate and falsy
         self.universe = sorted(ids)
         self.kind = kind
         self.pool = [model.KIND_CLASS[kind]()]
@@ -177,6 +178,19 @@ class Driver:
             e = r.randint(1, 118) if r.random() > 0.04 else r.choice([0, 119, -1])
             kk = k_atom if r.random() < 0.3 else ""
             return base_op(n, a=self.atom(g, 0.08), e=e, k=kk, v=v)
+        if n == "remove_atom" and stereo and r.random() < 0.5:
+            # prefer an atom that some descriptor mentions (as centre or as ligand)
+            mentioned = set()
+            for d in list(g.atom_stereo.values()) + list(g.bond_stereo.values()):
+                mentioned.update(a for a in d.atoms if a is not None)
+            if changes:
+                for cd in list(g.atom_stereo_changes.values()) + list(g.bond_stereo_changes.values()):
+                    for d in cd.values():
+                        if d is not None:
+                            mentioned.update(a for a in d.atoms if a is not None)
+            mentioned = [a for a in mentioned if g.has_atom(a)]
+            if mentioned:
+                return base_op(n, a=r.choice(sorted(mentioned)))
         if n in ("remove_atom", "has_atom", "get_atom_type", "bonded_to", "component_of", "get_atom_stereo",
                  "del_atom_stereo", "get_atom_stereo_change"):
             return base_op(n, a=self.atom(g))
